@@ -444,6 +444,78 @@ fn insufficient(pos: &Pos, white: bool) -> bool {
     minors <= 1
 }
 
+/// `pos` has a forced mate in two for the side to move; `m` is the move chosen. Is a forced mate
+/// still there against every defence? Looked for within four further attacker moves. "lost" is
+/// reported only when the search for it was exhaustive (or the game is drawn at once, or the
+/// mating material is gone); "unproven" when the budget ran out.
+pub fn forced_mate_verdict(pos: &Pos, m: super::super::refmodel::Mv) -> (&'static str, String) {
+    let after = pos.make(m);
+    if after.is_checkmate() {
+        return ("kept", String::new());
+    }
+    if after.is_stalemate() {
+        return ("lost", "which stalemates although a mate in two exists".into());
+    }
+    let mut verdict = "kept";
+    let mut why = String::new();
+    let mut budget = Solver::new(25_000_000);
+    'replies: for r in after.legal_moves() {
+        let p2 = after.make(r);
+        let defender_bare_now = p2
+            .sq
+            .iter()
+            .filter(|&&p| p != EMPTY && ((p & BLACK == 0) != pos.white))
+            .all(|&p| ptype(p) == K);
+        // K (+ one minor) against a BARE king cannot mate at all. (Against a king with
+        // pieces of its own it can - smothered corners - so that case goes to the solver.)
+        if defender_bare_now && insufficient(&p2, pos.white) {
+            verdict = "lost";
+            why = format!("after {} the attacker has no mating material left against a bare king", r.uci());
+            break;
+        }
+        let mut settled = None;
+        for n in 1..=4 {
+            match budget.mate_in(&p2, n) {
+                Some(true) => {
+                    settled = Some(true);
+                    break;
+                }
+                Some(false) => settled = Some(false),
+                None => {
+                    settled = None;
+                    break;
+                }
+            }
+        }
+        match settled {
+            Some(true) => {}
+            Some(false) => {
+                let defender_bare = p2
+                    .sq
+                    .iter()
+                    .filter(|&&p| p != EMPTY && ((p & BLACK == 0) != pos.white))
+                    .all(|&p| ptype(p) == K);
+                if defender_bare && !insufficient(&p2, pos.white) {
+                    // bare king: mating material kept is the textbook certificate
+                    continue;
+                }
+                verdict = "lost";
+                why = format!(
+                    "after the reply {} exhaustive analysis finds no mate within four more moves (a mate in two existed before the move)",
+                    r.uci()
+                );
+                break 'replies;
+            }
+            None => {
+                if verdict == "kept" {
+                    verdict = "unproven";
+                }
+            }
+        }
+    }
+    (verdict, why)
+}
+
 pub fn check(plans: &[Plan], recs: &[RunRec]) -> Outcome {
     let (plan, rec) = (&plans[0], &recs[0]);
     let mut out = Outcome::default();
@@ -564,77 +636,7 @@ pub fn check(plans: &[Plan], recs: &[RunRec]) -> Outcome {
             }
         }
         if class.m2 {
-            if after.is_checkmate() {
-                out.stats.inc("ok.mate_kept");
-                continue;
-            }
-            if after.is_stalemate() {
-                out.violations.push(Violation::new(
-                    "forced_mate_thrown_away",
-                    format!("{ctx}, which stalemates although a mate in two exists"),
-                ));
-                continue;
-            }
-            // Is a forced mate still there against every defence? Looked for within
-            // four further attacker moves. "lost" is reported only when the search for it
-            // was exhaustive (or the mating material is gone); otherwise inconclusive.
-            let mut verdict = "kept";
-            let mut why = String::new();
-            let mut budget = Solver::new(25_000_000);
-            'replies: for r in after.legal_moves() {
-                let p2 = after.make(r);
-                let defender_bare_now = p2
-                    .sq
-                    .iter()
-                    .filter(|&&p| p != EMPTY && ((p & BLACK == 0) != pos.white))
-                    .all(|&p| ptype(p) == K);
-                // K (+ one minor) against a BARE king cannot mate at all. (Against a king with
-                // pieces of its own it can - smothered corners - so that case goes to the solver.)
-                if defender_bare_now && insufficient(&p2, pos.white) {
-                    verdict = "lost";
-                    why = format!("after {} the attacker has no mating material left against a bare king", r.uci());
-                    break;
-                }
-                let mut settled = None;
-                for n in 1..=4 {
-                    match budget.mate_in(&p2, n) {
-                        Some(true) => {
-                            settled = Some(true);
-                            break;
-                        }
-                        Some(false) => settled = Some(false),
-                        None => {
-                            settled = None;
-                            break;
-                        }
-                    }
-                }
-                match settled {
-                    Some(true) => {}
-                    Some(false) => {
-                        let defender_bare = p2
-                            .sq
-                            .iter()
-                            .filter(|&&p| p != EMPTY && ((p & BLACK == 0) != pos.white))
-                            .all(|&p| ptype(p) == K);
-                        if defender_bare && !insufficient(&p2, pos.white) {
-                            // bare king: mating material kept is the textbook certificate
-                            continue;
-                        }
-                        verdict = "lost";
-                        why = format!(
-                            "after the reply {} exhaustive analysis finds no mate within four more moves (a mate in two existed before the move)",
-                            r.uci()
-                        );
-                        break 'replies;
-                    }
-                    None => {
-                        if verdict == "kept" {
-                            verdict = "unproven";
-                        }
-                    }
-                }
-            }
+            let (verdict, why) = forced_mate_verdict(&pos, m);
             match verdict {
                 "kept" => out.stats.inc("ok.mate_kept"),
                 "unproven" => out.stats.inc("inconclusive.mate_in_2_followup_not_settled"),
